@@ -94,4 +94,13 @@ PROPS = {
              '(hash of the per-step thread sequence) measured by the scheduler; stress: case = one two-thread run, evaluations = messages written. non-trivial = every execution.',
         exhaustive=dict(quick=False, thorough=False),
         assumptions=['exhaustive only within the preemption bound and hook granularity', 'sequentially consistent atomics (no weak-memory modelling)']),
+    'C17': dict(
+        level_text='Runtime monitoring with a constructive oracle: metadata blocks are generated from a list of (key, optional value) entries (1..8 entries, keys and values over the alphabet "ab:= 01", empty values, value-less entries in every position, repeated keys), placed in exact-size heap blocks and read back through range-for over Port::meta(), operator[], find and length(); the expectation is the list itself. Blocks produced by the library macros (rMap, rProp, rDoc, rOptions, rLinear, rPreset, rDepends ...) are checked the same way. AddressSanitizer watches the terminator.',
+        level_note='Trusts the generator (expected list = what was written). Keys are non-empty and do not start with ":".',
+        technique='constructive-oracle monitor under AddressSanitizer/UBSan',
+        stages=[dict(harness='c17', variant='asan', quick=50000, thorough=5000000,
+                     need=['blocks', 'entries_iterated', 'lookups', 'blocks.macro_built', 'blocks.empty', 'blocks.repeated_key', 'blocks.empty_value_not_last', 'blocks.value_starts_with_colon'])],
+        rule='case = one metadata block; distinct = hash of the block bytes; every block is non-trivial (>=1 entry iterated, looked up and measured).',
+        exhaustive=dict(quick=False, thorough=False),
+        assumptions=['expected entries are the generator\'s own list']),
 }
